@@ -168,12 +168,15 @@ def run_harness(chk, scripts, tag):
     for (pkg, run, ov, obs), (rc, out) in zip(jobs, results):
         if rc != 0:
             raise vlib.Inconclusive("harness %s failed (rc=%s):\n%s" % (pkg, rc, out[-3000:]))
+    chk.deb_contaminated = False
     for (_, _, _, obs) in jobs:
         if os.path.exists(obs + ".meta"):
             meta = json.load(open(obs + ".meta"))
             if meta.get("lingering_debouncers"):
                 chk.cov["sm_lingering_debouncers"] = chk.cov.get("sm_lingering_debouncers", 0) + meta["lingering_debouncers"]
             n = meta.get("foreign_reload_calls", 0)
+            if n or meta.get("lingering_debouncers"):
+                chk.deb_contaminated = True
             if n:
                 chk.cov["sm_reload_calls_of_no_run"] = chk.cov.get("sm_reload_calls_of_no_run", 0) + n
                 chk.notes.append("%d reload call(s) in the session-manager target carried another run's configuration "
@@ -285,7 +288,10 @@ def run(chk):
     for w in list(runs)[:3]:
         chk.cov["samples"].append({"script": [(s["op"], s["p"], s["c"], s["ok"], s["d"]) for s in byid[w]["steps"]],
                                    "target": byid[w]["target"], "history": compact(runs[w]), "verdict": verdicts[w]})
-    failing = {w: v for w, v in verdicts.items() if v["fails"]}
+    disturbed = [w for w, ev in runs.items() if ev[-1].get("disturbed")]
+    if disturbed:
+        chk.cov["disturbed_runs_not_judged"] = len(disturbed)
+    failing = {w: v for w, v in verdicts.items() if v["fails"] and w not in disturbed}
     vlib.log("  %d runs, %d lines, %d reloads, %d distinct histories with a reload, %d failing runs, %d drift, %d not quiet"
              % (len(runs), nlines, reloads, len(nontrivial), len(failing), drift, noquiet))
     if failing:
@@ -330,6 +336,8 @@ def confirm(chk, failing, byid, runs):
         verdicts, runs2, _ = judge(chk, obs, "confirm%d" % rnd)
         for w2, v in verdicts.items():
             w = w2.split("~")[0]
+            if runs2[w2][-1].get("disturbed"):
+                continue        # a debouncer of an earlier session-manager run acted during this one
             for name in v["fails"]:
                 if name in failing[w]["fails"]:
                     sig = signature(name, byid[w])
